@@ -17,6 +17,7 @@ def main():
         if r.returncode != 0:
             print(r.stdout[-4000:])
             return 1
+    buildmod.build("plain", None, ["c06_parallel"], True)   # complex-matrix-element flavour (part of the C06 quick check)
     buildmod.build("tsan", None, ["c06_omp_tsan"])   # ThreadSanitizer probe of the OpenMP region (single inline rank, real threads)
     r = subprocess.run([sys.executable, os.path.join(buildmod.VERIF, "tools", "selftest.py"), "--quick"])
     if r.returncode != 0:
